@@ -54,26 +54,32 @@ Lemma inv_tunnel_server_events c ev sx s' r :
 Proof.
   intros Ix. unfold tunnel_server_events.
   destruct (upstream sx) as [u|] eqn:Eu; [|intros E; inv_pair; exact Ix].
+  assert (Hw : forall s2, inv c s2 -> upstream s2 = Some u ->
+     (if u_w ev then
+        match flush (max_send c) (u_send ev) u with
+        | (u', Flushed _) => (set_upstream (Some u') s2, Continue)
+        | (_, _) => (s2, Raised)
+        end
+      else (s2, Continue)) = (s', r) -> inv c s').
+  { intros s2 I2 Eu2. destruct (u_w ev); [|intros E; inv_pair; exact I2].
+    destruct (flush (max_send c) (u_send ev) u) as [u' fr] eqn:Ef.
+    pose proof (flush_conservation _ _ _ _ _ Ef) as Hc.
+    destruct fr; intros E; inv_pair; try exact I2.
+    destruct I2 as [J1 [J2 J3]]. unfold inv_up in J3. rewrite Eu2 in J3. destruct J3 as [A' [B' [C' D']]].
+    unfold inv, inv_up; hsimpl. split; [exact J1|]. split; [exact J2|].
+    repeat split; auto. intros Ht. rewrite Hc. auto. }
+  assert (Hclosed : (if has_buffer (work sx) then (set_must_flush true sx, Continue) else (sx, Teardown)) = (s', r) -> inv c s').
+  { destruct (has_buffer (work sx)) eqn:Hb; intros E; inv_pair; [|exact Ix].
+    destruct Ix as [A [B C]]. split; [exact A|]. split; [intros _; exact Hb|exact C]. }
+  destruct (u_r ev); [|now apply Hw].
+  destruct (u_recv ev) as [raw| | | |]; try exact Hclosed; try (intros E; inv_pair; exact Ix).
+  destruct raw as [|x raw]; [exact Hclosed|].
+  apply Hw; [|hsimpl; exact Eu].
   destruct Ix as [H1 [H2 H3]]. unfold inv_up in H3. rewrite Eu in H3. destruct H3 as [A [B [C D]]].
-  assert (Ix : inv c sx) by (unfold inv, inv_up; rewrite Eu; repeat split; auto).
-  set (rd := if u_r ev then _ else _).
-  assert (Ird : inv c (fst rd) /\ upstream (fst rd) = Some u).
-  { unfold rd. destruct (u_r ev); [|cbn [fst]; split; [exact Ix|exact Eu]].
-    destruct (u_recv ev) as [raw| | | |]; try (cbn [fst]; split; [exact Ix|exact Eu]).
-    destruct raw as [|x raw]; [cbn [fst]; split; [exact Ix|exact Eu]|]. cbn [fst]. split; [|hsimpl; exact Eu].
-    unfold inv, inv_up, ack_of; hsimpl. rewrite Eu. split; [|split].
-    - rewrite queue_conservation. now rewrite H1.
-    - intros _. apply has_buffer_queue.
-    - repeat split; auto. unfold ack_of in C. rewrite C. now rewrite app_assoc. }
-  destruct rd as [s2 r2]. cbn [fst] in Ird. destruct Ird as [I2 Eu2].
-  destruct r2; try (intros E; inv_pair; exact I2).
-  destruct (u_w ev); [|intros E; inv_pair; exact I2].
-  destruct (flush (max_send c) (u_send ev) u) as [u' fr] eqn:Ef.
-  pose proof (flush_conservation _ _ _ _ _ Ef) as Hc.
-  destruct fr; intros E; inv_pair; try exact I2.
-  destruct I2 as [J1 [J2 J3]]. unfold inv_up in J3. rewrite Eu2 in J3. destruct J3 as [A' [B' [C' D']]].
-  unfold inv, inv_up; hsimpl. split; [exact J1|]. split; [exact J2|].
-  repeat split; auto. intros Ht. rewrite Hc. auto.
+  unfold inv, inv_up, ack_of; hsimpl. rewrite Eu. split; [|split].
+  - rewrite queue_conservation. now rewrite H1.
+  - intros _. apply has_buffer_queue.
+  - repeat split; auto. unfold ack_of in C. rewrite C. now rewrite app_assoc.
 Qed.
 
 Theorem inv_tunnel_handle_events c ev s s' r :
@@ -172,4 +178,75 @@ Proof.
   assert (Ht : is_tunnel s = true).
   { apply (tinv_tunnel_run _ _ _ _ _ (fun (H : upstream (init t0) <> None) => False_ind _ (H eq_refl)) Hr). congruence. }
   unfold ack_of in C. rewrite Ht in C. split; [now rewrite H1|auto].
+Qed.
+
+(* ------------------------------------------------------------------------------------------
+   C07 for BaseTcpTunnelHandler (with proposed_fixes/C07-tunnel-upstream-eof.diff): a teardown decided by
+   handle_events finds the client buffer empty unless it is the client side that ended (EOF / reset /
+   timeout on the client recv: BaseTcpServerHandler returns True at once for those)
+   ------------------------------------------------------------------------------------------ *)
+Definition client_ended (ev : event) : bool :=
+  c_r ev && match c_recv ev with
+            | REof => true | RData [] => true | RReset => true | RTimeout _ => true | _ => false
+            end.
+
+Theorem tunnel_teardown_flushed c ev s s' :
+  tunnel_handle_events c ev s = (s', Teardown) ->
+  client_ended ev = true \/ buffer (work s') = [].
+Proof.
+  unfold tunnel_handle_events, base_handle_events.
+  destruct (base_handle_writables c ev s) as [s1 r1] eqn:Ew.
+  destruct r1 as [[|]| |]; try (intros E; discriminate).
+  - (* the awaited final flush completed *)
+    intros E; inv_pair. right. revert Ew. unfold base_handle_writables.
+    destruct (c_w ev && has_buffer (work s)); [|discriminate]. hsimpl.
+    destruct (flush (max_send c) (c_send ev) (work s)) as [w' fr]. destruct fr; try discriminate.
+    destruct (must_flush s && negb (has_buffer w')) eqn:Em; intros E; inversion E; subst. hsimpl.
+    apply andb_true_iff in Em as [_ Em]. apply negb_true_iff in Em. now apply has_buffer_false.
+  - destruct (base_handle_readables (tunnel_handle_data c ev) ev s1) as [s2 r2] eqn:Er.
+    destruct r2 as [[|]| |]; try (intros E; discriminate).
+    + (* base handle_readables returned True *)
+      intros E; inv_pair. revert Er. unfold base_handle_readables, client_ended.
+      destruct (c_r ev); [|discriminate]. cbn [andb].
+      destruct (c_recv ev) as [data| | | |]; try (intros _; now left); try discriminate.
+      destruct data as [|x data]; [intros _; now left|].
+      destruct (tunnel_handle_data c ev (note_client_io (now ev) s1) (x :: data)) as [sx o].
+      destruct o as [[|]|]; try discriminate.
+      destruct (has_buffer (work sx)) eqn:Hb; intros E; inversion E; subst.
+      right. now apply has_buffer_false.
+    + (* upstream part *)
+      unfold tunnel_server_events. destruct (upstream s2) as [u|]; [|discriminate].
+      assert (Hw : forall sy, (if u_w ev then
+                  match flush (max_send c) (u_send ev) u with
+                  | (u', Flushed _) => (set_upstream (Some u') sy, Continue)
+                  | (_, _) => (sy, Raised)
+                  end else (sy, Continue)) = (s', Teardown) -> False).
+      { intros sy. destruct (u_w ev); [|discriminate].
+        destruct (flush (max_send c) (u_send ev) u) as [u' fr]. destruct fr; discriminate. }
+      assert (Hc : (if has_buffer (work s2) then (set_must_flush true s2, Continue) else (s2, Teardown)) = (s', Teardown) ->
+                   buffer (work s') = []).
+      { destruct (has_buffer (work s2)) eqn:Hb; [discriminate|]. intros E; inv_pair. now apply has_buffer_false. }
+      destruct (u_r ev); [|intros E; destruct (Hw _ E)].
+      destruct (u_recv ev) as [raw| | | |]; try (intros E; right; exact (Hc E)); try discriminate.
+      destruct raw as [|x raw]; [intros E; right; exact (Hc E)|]. intros E; destruct (Hw _ E).
+Qed.
+
+(* and the server's close is never dropped on the floor: with output pending it arms the final flush,
+   and the call whose client flush empties the buffer then returns True (BaseTcpServerHandler.handle_writables) *)
+Theorem tunnel_server_close_waits c ev s u :
+  upstream s = Some u -> u_r ev = true -> u_recv ev = REof -> has_buffer (work s) = true ->
+  tunnel_server_events c ev s = (set_must_flush true s, Continue).
+Proof.
+  intros Eu Er Ee Hb. unfold tunnel_server_events. now rewrite Eu, Er, Ee, Hb.
+Qed.
+
+Theorem tunnel_final_flush_prompt c ev s w' n :
+  must_flush s = true -> c_w ev = true -> has_buffer (work s) = true ->
+  flush (max_send c) (c_send ev) (work s) = (w', Flushed n) -> buffer w' = [] ->
+  exists s', tunnel_handle_events c ev s = (s', Teardown) /\ work s' = w'.
+Proof.
+  intros Hm Hw Hb Ef Hbuf. unfold tunnel_handle_events, base_handle_events, base_handle_writables.
+  rewrite Hw, Hb. hsimpl. rewrite Ef. hsimpl. rewrite Hm.
+  assert (has_buffer w' = false) as -> by now apply has_buffer_false.
+  cbn. eexists. split; reflexivity.
 Qed.
